@@ -361,7 +361,7 @@ func runBatch(ck *Check, agg *Agg, tier string, seed int64, b batch, workDir, ex
 	cmd.Dir = workDir
 	cmd.Env = append(os.Environ(), "GOTRACEBACK=all")
 	if ck.Race {
-		cmd.Env = append(cmd.Env, "GORACE=halt_on_error=0 log_path="+out+".race")
+		cmd.Env = append(cmd.Env, "GORACE=halt_on_error=0 exitcode=0 log_path="+out+".race")
 	}
 	if err := cmd.Start(); err != nil {
 		agg.addIssue(issue{Kind: "inconclusive", Idx: b.from, Msg: "cannot start child: " + err.Error()})
@@ -583,8 +583,12 @@ func collectRace(agg *Agg, out string) {
 			agg.mu.Lock()
 			agg.Counts["race_reports"]++
 			agg.mu.Unlock()
-			key := "race:" + raceKey(blk)
-			agg.addIssue(issue{Kind: "violation", Idx: -1, Key: key, Msg: firstLines(strings.TrimSpace(blk), 45)})
+			rk := raceKey(blk)
+			if rk == "unknown" { // neither access is in the code under test: a defect of the monitor, never a verdict on the repository
+				agg.addIssue(issue{Kind: "inconclusive", Idx: -1, Msg: "race report without a frame of the code under test (harness defect?):\n" + firstLines(strings.TrimSpace(blk), 30)})
+				continue
+			}
+			agg.addIssue(issue{Kind: "violation", Idx: -1, Key: "race:" + rk, Msg: firstLines(strings.TrimSpace(blk), 45)})
 		}
 		os.Remove(f)
 	}
